@@ -311,6 +311,21 @@ func c11Run(c *core.Ctx, idx int) {
 					return false
 				}
 			}
+			// The typed helpers agree with RetrieveRule.
+			for _, k := range order[:min(len(order), 12)] {
+				e := got[k]
+				nr, hr := s.RetrieveNetworkRule(e.Idx), s.RetrieveHostRule(e.Idx)
+				c.Eval(1)
+				switch {
+				case e.Kind == "network" && (nr == nil || nr.Text() != e.Text || hr != nil),
+					e.Kind == "host" && (hr == nil || hr.Text() != e.Text || nr != nil),
+					e.Kind == "cosmetic" && (nr != nil || hr != nil):
+					c.Violation("typed-retrieval-mismatch:"+backing, nil, wit(backing, fmt.Sprintf("idx %#x kind %s", e.Idx, e.Kind)),
+						"%s-backed RetrieveNetworkRule/RetrieveHostRule(%#x) disagree with the scanned %s rule %q", backing, e.Idx, e.Kind, e.Text)
+
+					return false
+				}
+			}
 			if s.GetCacheSize() != len(got) {
 				c.Violation("cache-size:"+backing, nil, wit(backing, fmt.Sprintf("cache size %d after retrieving %d rules", s.GetCacheSize(), len(got))), "cache size %d after retrieving %d distinct rules", s.GetCacheSize(), len(got))
 
